@@ -17,7 +17,8 @@ EXTENDS Naturals, Sequences, FiniteSets, TLC
 CONSTANTS Req,            \* client requests (= their tokens); BackendOf gives the backend each is routed to
           Backend,
           BackendOf,      \* [Req -> Backend]
-          SharedResponseKey \* deviation: responses are keyed by something shared (not the request ID)
+          SharedResponseKey, \* deviation: responses are keyed by something shared (not the request ID)
+          ShortRetention    \* deviation: the retention period is shorter than the time a client may wait
 
 None == "none"
 \* routing used by the model-checking configurations: r3 goes to backend b2, everything else to b1
@@ -29,55 +30,73 @@ VARIABLES cst,        \* [Req -> "new" | "waiting" | "done" | "timeout"]
           listed,     \* [Req -> some list reply carried it]
           fetched,    \* [Req -> token the agent fetched for it (None before)]
           resp,       \* [Req -> "none" | "posting" | "written" | "marked" | "done"] progress of the response call
-          got         \* [Req -> token of the response the client received]
-avars == <<cst, stored, completed, response, listed, fetched, resp, got>>
+          got,        \* [Req -> token of the response the client received]
+          old,        \* set of requests whose entities are older than two minutes
+          seen        \* [Backend -> the backend's agent was seen within the last hour (backendTracker.LastSeen)]
+avars == <<cst, stored, completed, response, listed, fetched, resp, got, old, seen>>
 
 Init == /\ cst = [r \in Req |-> "new"] /\ stored = [r \in Req |-> FALSE] /\ completed = [r \in Req |-> FALSE]
         /\ response = [r \in Req |-> None] /\ listed = [r \in Req |-> FALSE] /\ fetched = [r \in Req |-> None]
         /\ resp = [r \in Req |-> "none"] /\ got = [r \in Req |-> None]
+        /\ old = {} /\ seen = [b \in Backend |-> FALSE]
 
 ClientStore(r) ==        \* proxyHandler: LookupBackend, serialise, WriteRequest
   /\ cst[r] = "new"
   /\ stored' = [stored EXCEPT ![r] = TRUE] /\ cst' = [cst EXCEPT ![r] = "waiting"]
-  /\ UNCHANGED <<completed, response, listed, fetched, resp, got>>
+  /\ UNCHANGED <<completed, response, listed, fetched, resp, got, old, seen>>
 
 AgentList(b, ids) ==     \* pendingHandler: the uncompleted requests of backend b (here: any non-empty subset, the query has a limit)
   /\ ids # {} /\ ids \subseteq {r \in Req : BackendOf[r] = b /\ stored[r] /\ ~completed[r]}
   /\ listed' = [r \in Req |-> listed[r] \/ r \in ids]
-  /\ UNCHANGED <<cst, stored, completed, response, fetched, resp, got>>
+  /\ seen' = [seen EXCEPT ![b] = TRUE]            \* registerBackendAsSeen
+  /\ UNCHANGED <<cst, stored, completed, response, fetched, resp, got, old>>
 
 AgentFetch(b, r) ==      \* requestHandler: ReadRequest(b, id) - only under the validated backend
   /\ stored[r] /\ BackendOf[r] = b
   /\ fetched' = [fetched EXCEPT ![r] = r]
-  /\ UNCHANGED <<cst, stored, completed, response, listed, resp, got>>
+  /\ UNCHANGED <<cst, stored, completed, response, listed, resp, got, old, seen>>
 
 \* responseHandler = ReadRequest, then WriteResponse and WriteRequest(completed) in either order
 RespondStart(b, r) == /\ resp[r] = "none" /\ stored[r] /\ BackendOf[r] = b /\ fetched[r] # None
                       /\ resp' = [resp EXCEPT ![r] = "posting"]
-                      /\ UNCHANGED <<cst, stored, completed, response, listed, fetched, got>>
+                      /\ UNCHANGED <<cst, stored, completed, response, listed, fetched, got, old, seen>>
 \* the key the response is stored under: the request ID - or, with the deviation, one shared slot
 Slot(r) == IF SharedResponseKey THEN CHOOSE x \in Req : TRUE ELSE r
 WriteResponse(r) == /\ resp[r] \in {"posting", "marked"}
                     /\ response' = [response EXCEPT ![Slot(r)] = fetched[r]]     \* the backend answered what it was sent
                     /\ resp' = [resp EXCEPT ![r] = IF resp[r] = "posting" THEN "written" ELSE "done"]
-                    /\ UNCHANGED <<cst, stored, completed, listed, fetched, got>>
+                    /\ UNCHANGED <<cst, stored, completed, listed, fetched, got, old, seen>>
 MarkCompleted(r) == /\ resp[r] \in {"posting", "written"}
                     /\ completed' = [completed EXCEPT ![r] = TRUE]
                     /\ resp' = [resp EXCEPT ![r] = IF resp[r] = "posting" THEN "marked" ELSE "done"]
-                    /\ UNCHANGED <<cst, stored, response, listed, fetched, got>>
+                    /\ UNCHANGED <<cst, stored, response, listed, fetched, got, old, seen>>
 
 ClientPoll(r) ==         \* waitForResponse: ReadResponse(backend, id) every 100 ms
   /\ cst[r] = "waiting" /\ response[Slot(r)] # None
   /\ got' = [got EXCEPT ![r] = response[Slot(r)]] /\ cst' = [cst EXCEPT ![r] = "done"]
-  /\ UNCHANGED <<stored, completed, response, listed, fetched, resp>>
+  /\ UNCHANGED <<stored, completed, response, listed, fetched, resp, old, seen>>
 ClientTimeout(r) ==      \* 30 s without a response: 504
   /\ cst[r] = "waiting" /\ response[Slot(r)] = None
   /\ cst' = [cst EXCEPT ![r] = "timeout"]
-  /\ UNCHANGED <<stored, completed, response, listed, fetched, resp, got>>
+  /\ UNCHANGED <<stored, completed, response, listed, fetched, resp, got, old, seen>>
+
+(* ---- retention: /cron/delete (deleteHandler -> DeleteOldBackends, DeleteOldRequests) ---- *)
+Ages(r) ==               \* two minutes pass.  A client waits at most 30 s (responseWaitTimeout), so an entity
+  /\ r \notin old /\ (ShortRetention \/ cst[r] \in {"done", "timeout"})   \* that old belongs to an exchange that is over
+  /\ old' = old \cup {r}
+  /\ UNCHANGED <<cst, stored, completed, response, listed, fetched, resp, got, seen>>
+GoesQuiet(b) ==          \* the backend's agent has not listed for an hour
+  /\ seen[b] /\ seen' = [seen EXCEPT ![b] = FALSE]
+  /\ UNCHANGED <<cst, stored, completed, response, listed, fetched, resp, got, old>>
+Cron ==                  \* request entities: only of recently seen backends (listRecentBackends); responses: all old ones
+  /\ stored' = [r \in Req |-> stored[r] /\ ~(r \in old /\ seen[BackendOf[r]])]
+  /\ response' = [r \in Req |-> IF r \in old THEN None ELSE response[r]]
+  /\ UNCHANGED <<cst, completed, listed, fetched, resp, got, old, seen>>
 
 Next == \/ \E r \in Req : ClientStore(r) \/ WriteResponse(r) \/ MarkCompleted(r) \/ ClientPoll(r) \/ ClientTimeout(r)
         \/ \E b \in Backend : \E r \in Req : AgentFetch(b, r) \/ RespondStart(b, r)
         \/ \E b \in Backend : \E ids \in SUBSET Req : AgentList(b, ids)
+        \/ Cron \/ (\E r \in Req : Ages(r)) \/ (\E b \in Backend : GoesQuiet(b))
 Spec == Init /\ [][Next]_avars
         /\ \A r \in Req : WF_avars(WriteResponse(r)) /\ WF_avars(MarkCompleted(r)) /\ WF_avars(ClientPoll(r))
 
@@ -88,7 +107,13 @@ ResponseIsOwn == \A r \in Req : got[r] \in {None, r}
 \* C19: once the response call has finished, the request is not listed any more
 CompletedNotListed == [][\A b \in Backend : \A ids \in SUBSET Req : AgentList(b, ids) => \A r \in ids : resp[r] # "done"]_avars
 \* C17: an agent is only ever handed requests of its own backend
-OwnBackendOnly == \A r \in Req : listed[r] => stored[r]
+OwnBackendOnly == \A r \in Req : listed[r] => cst[r] # "new"
+\* retention never touches an exchange that is still going on: the request and the response of a waiting
+\* client survive every run of the cron handler (30 s of waiting against two minutes of retention)
+CronSparesWaiting == [][\A r \in Req : cst[r] = "waiting" => ((stored[r] => stored'[r]) /\ (response[r] # None => response'[r] # None))]_avars
+\* what retention leaves behind: requests of a backend whose agent has gone quiet are never collected by
+\* DeleteOldRequests (an observation about the code, not one of the listed properties)
+QuietBackendsKeepRequests == [][\A r \in Req : (stored[r] /\ ~seen[BackendOf[r]]) => stored'[r]]_avars
 \* every response call that started finishes
 RespondCompletes == \A r \in Req : (resp[r] = "posting") ~> (resp[r] = "done")
 =============================================================================
